@@ -1,6 +1,6 @@
 """C03 - type mismatches are rejected at compile time.
 
-Two universes, one specification (MC_Mismatch EXTENDS SyltArrival EXTENDS SyltMismatch):
+Four universes, one specification (MC_Mismatch EXTENDS SyltSharing EXTENDS SyltOps EXTENDS SyltArrival EXTENDS SyltMismatch):
   * SyltMismatch: a table of mismatches (planted ill-typed expression / statements built from LITERALS and prelude
     functions, the well-typed base it replaces, the typing rule it violates) x every chain of contexts (innermost
     first, the last one a top that yields a whole program) of length <= Depth whose sorts and types fit;
@@ -16,7 +16,18 @@ Two universes, one specification (MC_Mismatch EXTENDS SyltArrival EXTENDS SyltMi
     literals / two variables / ONE variable, field, call result or parameter twice (`s * s`), and the compound
     assignments += -= *= /= on a local, global, captured variable, blob field, field of a blob parameter with the value a
     literal, a variable or the target itself, as the last use and followed by a use; plus compound assignments with
-    different types.
+    different types;
+  * SyltSharing: contradictions that are definite only through SHARING - the offending types never meet at one construct, they are
+    linked by one un-annotated binder / one value.  A case is a system of type equations and operator requirements over type
+    variables; it is well typed iff some assignment of types satisfies all of them (TLC enumerates the assignments: Sat).  Family L:
+    an operator on two tuples (also nested) of un-annotated parameters whose component types are fixed elsewhere in the function
+    (annotated definition / constant, list literal, list annotation, call argument, assignment, ==, blob field, ret, tail), before /
+    after / around the operator, in a local / immediate / global function.  Family V: one value with an unresolved element type
+    ([], ([], 1), (1, []), [[]], generic blob, Maybe.Just []) held by a global constant / mutable global / local / parameter and
+    used at two types (7 kinds of use, ordered pairs; globals also from two functions).  Family X: two compound types of width 3 / 4
+    with repeated components in different patterns ((A,B,A) against (X,Y,Y)) equated with exactly one contradicting component
+    (list of tuples - literal, through variables, nested -, tuple assignment, ==, fn a: *T, b: *T, generic blob values, two generic
+    signatures over a tuple / enum, a generic function signature handed an un-annotated function).
 MC_Mismatch
   * mode emit: checks the universes' sanity as ASSUMEs and prints one REPLAY record per case (base and planted
     program as ASTs);
@@ -37,6 +48,7 @@ import vlib
 
 PID = "C03"
 _T0 = time.time()
+TLC_WORKERS = int(os.environ.get("C03_TLC_WORKERS", "4"))      # the machine is shared
 
 
 def stage(name):
@@ -63,15 +75,15 @@ def tail_of(src):
 
 def plan(tier):
     if tier == "quick":
-        return {"DEPTH": 2, "FULL": 0, "PAIRS": 0, "MOD": 59, "NSLICE": 1}
-    return {"DEPTH": 3, "FULL": 1, "PAIRS": 1, "MOD": 1, "NSLICE": 7}
+        return {"DEPTH": 2, "FULL": 0, "PAIRS": 0, "MOD": 59, "NSLICE": 1, "SMOD": 236, "XMOD": 36}
+    return {"DEPTH": 3, "FULL": 1, "PAIRS": 1, "MOD": 1, "NSLICE": 8, "SMOD": 30, "XMOD": 2}
 
 
 def validate(wd, name, tf, env, complete, workers=None):
     e = dict(env, MODE="validate", TRACE=tf, COMPLETE=1 if complete else 0)
     # coverage off: TLC's cost model of the emitting definitions (deeply nested operators) does not fit in memory;
     # the vacuity guards below count records and generated states instead
-    v = vlib.tlc("MC_Mismatch", wd=wd, env=e, tags=("REJECT",), workers=workers, timeout=1500, coverage=False,
+    v = vlib.tlc("MC_Mismatch", wd=wd, env=e, tags=("REJECT",), workers=workers or TLC_WORKERS, timeout=1500, coverage=False,
                  out_file=os.path.join(wd, "tlc-%s.out" % name))
     vlib.require_tlc_ok(v, "MC_Mismatch validate/" + name)
     rejects = {p["rec"]: p["why"] for (_, p) in v.records}   # PrintT may be evaluated twice: dedupe by record
@@ -101,13 +113,14 @@ def run(ctx):
         slices = list(range(env0["NSLICE"]))
 
     # accumulated over the slices
-    tot = {"cases": 0, "table_cases": 0, "arrival_cases": 0, "ops_cases": 0, "bases_ok": 0, "states": 0, "transitions": 0, "emit_wall_s": 0.0}
+    tot = {"cases": 0, "table_cases": 0, "arrival_cases": 0, "ops_cases": 0, "share_cases": 0, "bases_ok": 0, "states": 0, "transitions": 0, "emit_wall_s": 0.0}
     universe0 = None
     base_rejected = []
     accepted_by_kind = {}
     accepted_by_form = {}
     kinds_ok, kinds_all, inner_ok = set(), set(), set()
-    cores_ok, forms_ok, derived_ok, ops_ok = set(), set(), set(), set()
+    cores_ok, forms_ok, derived_ok, ops_ok, share_ok = set(), set(), set(), set(), set()
+    share_classes = {}
     planted_texts = set()
     samples = []
     neg_material = None
@@ -121,7 +134,7 @@ def run(ctx):
             universe = None
         else:
             r = vlib.tlc("MC_Mismatch", wd=wd, env=dict(env, MODE="emit"), tags=("REPLAY", "PRELUDE", "UNIVERSE"),
-                         timeout=2400, xmx="12g", coverage=False, out_file=os.path.join(wd, "tlc-emit.out"))
+                         timeout=2400, xmx="6g" if tier == "quick" else "12g", coverage=False, workers=TLC_WORKERS, out_file=os.path.join(wd, "tlc-emit.out"))
             vlib.require_tlc_ok(r, "MC_Mismatch emit (spec-level sanity of the universe), slice %s" % sl)
             stage("emit done (slice %s)" % sl)
             prelude = [p for (t, p) in r.records if t == "PRELUDE"][0]
@@ -133,7 +146,7 @@ def run(ctx):
             cases = list(byid.values())
             del byid
             r.records = []
-            ncases = universe["table_cases"] + universe["arrival_cases"] + universe["ops_cases"]
+            ncases = universe["table_cases"] + universe["arrival_cases"] + universe["ops_cases"] + universe["share_cases"]
             if len(cases) != ncases:
                 vlib.tool_error("TLC printed %d cases, the universe (slice %s) has %d" % (len(cases), sl, ncases))
             # vacuity: one Emit step per case (coverage is off, so count the states: one per key, one per case)
@@ -146,6 +159,7 @@ def run(ctx):
             tot["table_cases"] += universe["table_cases"]
             tot["arrival_cases"] += universe["arrival_cases"]
             tot["ops_cases"] += universe["ops_cases"]
+            tot["share_cases"] += universe["share_cases"]
 
         json.dump(prelude, open(pf, "w"))
         vlib.write_ndjson(cf, cases)
@@ -192,7 +206,10 @@ def run(ctx):
                 kinds_ok.add(i_["kind"])
                 inner_ok.add(i_["path"][0])
                 planted_texts.add(hashlib.sha1(s_["planted_src"].encode()).digest()[:10])
-                if i_["u"] == "ops":
+                if i_["u"] == "share":
+                    share_ok.add(i_["kind"])
+                    share_classes[i_["core"]] = share_classes.get(i_["core"], 0) + 1
+                elif i_["u"] == "ops":
                     ops_ok.add(i_["kind"])
                 elif i_["u"] == "arrival":
                     cores_ok.add(i_["core"])
@@ -200,11 +217,11 @@ def run(ctx):
                     derived_ok.add(i_["kind"])
         n = len(recs)
         want_samples = [0, n - 1] if n > 1 else range(n)
-        for cls in ("arrival", "ops"):
+        for cls in ("arrival", "ops", "share"):
             arr = [i for i in range(n) if recs[i]["id"]["u"] == cls]
             if arr:
                 want_samples = list(want_samples) + [arr[len(arr) // 3], arr[(2 * len(arr)) // 3]]
-        if len(samples) < 8:
+        if len(samples) < 10:
             for i in want_samples:
                 samples.append({"id": recs[i]["id"], "observed": {k: recs[i][k] for k in ("base", "planted", "nerr", "bytes")},
                                 "base_source": tail_of(srcs[i]["base_src"]), "planted_source": tail_of(srcs[i]["planted_src"])})
@@ -225,9 +242,11 @@ def run(ctx):
         u = universe0
         if n < (20000 if tier == "quick" else 100000):
             vlib.tool_error("vacuity: only %d cases" % n)
-        table_kinds_ok = {k for k in kinds_ok if "@" not in k}
+        table_kinds_ok = {k for k in kinds_ok if "@" not in k and ":" not in k}
         if len(ops_ok) != u["ops_keys"]:
             vlib.tool_error("vacuity: %d of %d operator-type mismatches have an accepted base" % (len(ops_ok), u["ops_keys"]))
+        if len(share_ok) != u["share_keys"] or set(share_classes) != {"share-late-op", "share-hole", "share-crossed"}:
+            vlib.tool_error("vacuity: %d of %d sharing mismatches have an accepted base (classes %s)" % (len(share_ok), u["share_keys"], sorted(share_classes)))
         if len(table_kinds_ok) != u["kinds"]:
             vlib.tool_error("vacuity: %d of %d table mismatch kinds have an accepted base" % (len(table_kinds_ok), u["kinds"]))
         if kinds_ok != kinds_all:
@@ -267,13 +286,15 @@ def run(ctx):
         if any(i in nrej for i in unfalsified):
             vlib.tool_error("negative control: an unfalsified conforming record was rejected")
         ev.set(negative_controls_rejected=nrej_total,
-               universe={k: universe0[k] for k in ("kinds", "depth", "contexts", "cores", "forms", "derived", "ops_keys", "op_pairs")},
+               universe={k: universe0[k] for k in ("kinds", "depth", "contexts", "cores", "forms", "derived", "ops_keys", "op_pairs",
+                                                   "share_keys", "share_sizes")},
                arrival_forms=universe0["form_names"], arrival_cores=universe0["core_kinds"])
 
     n_accepted = sum(accepted_by_kind.values())
     ev.set(states=tot["states"], transitions=tot["transitions"], emit_wall_s=round(tot["emit_wall_s"], 1),
            traces_validated_against_impl=n, programs=2 * n, evaluations=2 * n, distinct_nontrivial=len(planted_texts),
-           table_cases=tot["table_cases"], arrival_cases=tot["arrival_cases"], ops_cases=tot["ops_cases"], plan=env0,
+           table_cases=tot["table_cases"], arrival_cases=tot["arrival_cases"], ops_cases=tot["ops_cases"],
+           share_cases=tot["share_cases"], share_cases_by_family=share_classes, plan=env0,
            exhaustive=not ctx.replay, bases_accepted=tot["bases_ok"], bases_rejected=len(base_rejected),
            base_rejected_examples=base_rejected[:3],
            planted_rejected_as_required=tot["bases_ok"] - n_accepted,
@@ -286,11 +307,17 @@ def run(ctx):
                 "every ordered pair) in the chains AChains (FULL: all of length <= 2; otherwise tops alone, unused/definfer/printarg "
                 "under start and a seeded 1/MOD sample of length 2); ops: every operator x same unsupported type (SyltOps!Sup) x shape "
                 "(binary: 6 operand shapes x 3 uses; compound assignment: 5 targets x 3 values x last/used) and the different-type compound "
-                "assignments, in every top alone and all (FULL) / a seeded 1/MOD sample of the chains of length 2; each case compiled in base and planted form with std; "
+                "assignments, in every top alone and all (FULL) / a seeded 1/MOD sample of the chains of length 2; sharing (SyltSharing): every "
+                "key of family L (operator x component types rejected by the typing model x tuple shape x pin-site pair x scenario), V (type pair x "
+                "holder x value shape x ordered pair of uses) and X (carrier x binding x pattern pair x grounding with exactly one contradicting "
+                "component; generic signatures) - quick: a seeded third of L and V, width 3 of X completely, 1/XMOD of width 4; thorough: all of L "
+                "and V, 1/XMOD of width 4 - under start plus a seeded 1/SMOD sample of the other tops and chains of length 2; each case compiled in base and planted form with std; "
                 "distinct_nontrivial = distinct planted program texts whose base form the compiler accepted",
-           samples=samples[:8], known_findings_hit=verdicts.known_hits)
+           samples=samples[:10], known_findings_hit=verdicts.known_hits)
     ev.assume("the mismatches are the property's list instantiated with literals and the prelude's functions/blobs (table MM) and with operands "
-              "that arrive through the forms of SyltArrival, and with two operands of one type lacking the operator (SyltOps); the rule each violates is stated in the tables and decided by the spec's operator "
+              "that arrive through the forms of SyltArrival, with two operands of one type lacking the operator (SyltOps), and with contradictions "
+              "spread over several constructs that share one un-annotated binder / one value (SyltSharing: definite iff the system of type equations "
+              "and operator requirements of the case has no solution - TLC enumerates the assignments); the rule each violates is stated in the tables and decided by the spec's operator "
               "/ core typing table over explicit types (literal types, repeated by every annotation an arrival form writes)",
               "the printer renders the ASTs faithfully (an unfaithful rendering shows up as a rejected base or as identical base/planted text: both guarded)",
               "int < float is accepted by design (Cmp) and is not planted; an un-annotated function used at two incompatible types by two call "
